@@ -9,7 +9,7 @@ import XrsVerif.Proofs.ILangProx
   `processNumpy_is_template : Gen.IL.processNumpy.body = pnBody` is checked by `rfl`, so any edit of
   `_process_numpy`, `_process_proximity_line` or `_calc_direction` in /repo breaks it.
 -/
-namespace XrsVerif.IL
+namespace XrsVerif.IL.Px
 open XrsVerif
 
 /-! ### `_calc_direction` over a prefix -/
@@ -193,4 +193,4 @@ def pnBody : St :=
 /-- **the generated `_process._process_numpy` is `pnBody`** (the four `.scope`s are `lineBody (NL k)`) -/
 theorem processNumpy_is_template : Gen.IL.processNumpy.body = pnBody := by rfl
 
-end XrsVerif.IL
+end XrsVerif.IL.Px
